@@ -26,7 +26,13 @@ def run_one(pid, m, slot):
         if os.path.exists(os.path.join(REPO, "_build", "CMakeCache.txt")):
             os.makedirs(os.path.join(repo, "_build"))
             shutil.copy(os.path.join(REPO, "_build", "CMakeCache.txt"), os.path.join(repo, "_build"))
-        edits = m.get("edits") or [{"file": m["file"], "find": m["find"], "replace": m["replace"]}]
+        if m.get("patch"):
+            r = subprocess.run(["patch", "-p1", "-s", "-d", repo, "-i", m["patch"]], capture_output=True, text=True)
+            if r.returncode != 0:
+                return {"id": m["id"], "result": "stale", "detail": "patch does not apply: " + r.stdout[-200:]}
+            edits = []
+        else:
+            edits = m.get("edits") or [{"file": m["file"], "find": m["find"], "replace": m["replace"]}]
         for e in edits:
             p = os.path.join(repo, e["file"])
             s = open(p).read()
@@ -52,6 +58,11 @@ def run_one(pid, m, slot):
                 "detail": "" if res in ("killed",) else "\n".join(l for l in r.stdout.splitlines() if l.startswith(("FAIL", "ANALYSIS", "C")))[-500:]}
     finally:
         shutil.rmtree(root, ignore_errors=True)
+
+
+def run_patch(pid, patch):
+    """apply a git patch (seeded change) to a scratch copy and run the property's check on it"""
+    return run_one(pid, {"id": os.path.basename(os.path.dirname(patch)), "patch": patch, "expect": []}, 900 + (os.getpid() % 50))
 
 
 def run(pid, only=None, jobs=8):
